@@ -11,6 +11,8 @@ Structural clauses decided (DESIGN.md section 4, C11):
  r5 RECALC      RecalculateAll clears every calculated flag and every derived value before iterating, and iterates in
                 dependency (topological) order.
  r6 RESET-COMPLETE  the per-constituent reset/erase helpers clear every per-constituent container of their class.
+ r8 GRAPH-FRESH the dependency graph ResetDependants walks is refreshed after every definition/alias/membership write of Schema
+                (same rule as C07 r1): a stale edge set means the wrong dependants are reset.
  r7 RESET-TOTAL ResetDependants cannot be aborted half-way: every optional::value() in the helpers it reaches is guarded
                 by has_value() on the same object (an escaping bad_optional_access would leave later dependants stale).
 """
@@ -233,6 +235,12 @@ def check(db, rep):
     _reset_complete(db, r6, VALUES, 'ResetFor', STORE + '::Erase')
     _reset_complete(db, r6, VALUES, 'Erase', STORE + '::Erase')
     _reset_complete(db, r6, CALC, 'ResetFor', None)
+
+    # ---------------- r8
+    r8 = rep.rule('r8', 'GRAPH-FRESH: the schema dependency graph that ResetDependants walks is refreshed after every write of a definition, alias or membership (shared with C07 r1, Schema part)', 10)
+    from rules import C07
+    from engine.modset import ModSets
+    C07.refresh_rule(db, rep, r8, ModSets(db), ((C07.SCHEMA, C07._classify_schema, C07._families_schema),))
 
     # ---------------- r7
     r7 = rep.rule('r7', 'RESET-TOTAL: every optional::value() reachable from ResetDependants inside the model classes is dominated by has_value() on the same object', 3)
